@@ -14,6 +14,10 @@ class PathAbort(Exception):
     """path pruned (infeasible or assumed away)."""
 
 
+class PathCut(Exception):
+    """path deliberately ended (e.g. after the inductive step of a loop rule); its obligations count."""
+
+
 class Obligation:
     __slots__ = ('name', 'pc', 'goal', 'info', 'kind')
 
@@ -46,6 +50,29 @@ def check_sat(formulas, timeout_ms=5000):
     STATS.solver_calls += 1
     STATS.solver_ms += (time.time() - t0) * 1000
     return r, s
+
+
+_qcache = {}
+
+
+def _has_quantifier(t):
+    k = t.get_id()
+    if k in _qcache:
+        return _qcache[k]
+    seen = set()
+    stack = [t]
+    res = False
+    while stack:
+        x = stack.pop()
+        if x.get_id() in seen:
+            continue
+        seen.add(x.get_id())
+        if z3.is_quantifier(x):
+            res = True
+            break
+        stack.extend(x.children())
+    _qcache[k] = res
+    return res
 
 
 class PathCtx:
@@ -83,11 +110,26 @@ class PathCtx:
     def full_pc(self):
         return self.facts + self.pc
 
-    def feasible(self, f):
-        r, _ = check_sat(self.facts + self.pc + [f], self.explorer.feas_timeout)
+    def feasible(self, f, careful=False):
+        """may the path continue under f?  Quantified hypotheses are left out (solvers rarely answer sat
+        on them): that over-approximates feasibility, so at worst an infeasible path is explored."""
+        allf = self.facts + self.pc + [f]
+        fs = [g for g in allf if not _has_quantifier(g)]
+        if len(fs) != len(allf):
+            # refutation with the quantified hypotheses is fast when it exists; give it a short budget
+            r, _ = check_sat(allf, 400)
+            if r == z3.unsat:
+                return False
+            if r == z3.sat:
+                return True
+        r, _ = check_sat(fs, self.explorer.feas_timeout)
+        if r != z3.unsat and careful and len(fs) != len(allf):
+            # a raise site: spend a real budget on refuting it with all hypotheses before exploring it
+            r2, _ = check_sat(allf, 15000)
+            return r2 != z3.unsat
         return r != z3.unsat
 
-    def branch(self, cond):
+    def branch(self, cond, careful=False):
         """decide a symbolic condition (z3 Bool) on this path; returns Python bool."""
         cond = z3.simplify(cond)
         if z3.is_true(cond):
@@ -99,7 +141,7 @@ class PathCtx:
             self.idx += 1
             self.pc.append(cond if d else z3.Not(cond))
             return d
-        ft = self.feasible(cond)
+        ft = self.feasible(cond, careful)
         ff = self.feasible(z3.Not(cond))
         if not ft and not ff:
             raise PathAbort('infeasible path')
@@ -161,6 +203,8 @@ class Explorer:
                 results.append(PathResult(ctx, 'return', value=v))
             except PyExc as e:
                 results.append(PathResult(ctx, 'raise', exc=e))
+            except PathCut:
+                results.append(PathResult(ctx, 'cut'))
             except PathAbort:
                 pass
             finally:
